@@ -1,6 +1,6 @@
 CHECK = dict(
     category="model_checking",
-    text='Ledger.tla states MainChainValid and BadNeverStored; the environment mints contextually invalid blocks (missing/spent/immature/locked inputs, in-block, cross-block and cross-fork double spends) and blocks with one rule-breaking header or coinbase mutation; TLC checks the invariants and every explored transition is replayed on a real node comparing result class, stored set, best block and index. Forks.tla supplies the acceptance of valid blocks in every order.',
+    text='Ledger.tla states MainChainValid and BadNeverStored; the environment mints contextually invalid blocks (missing/spent/immature/locked inputs, in-block, cross-block and cross-fork double spends) and blocks with one rule-breaking header or coinbase mutation; TLC checks the invariants and every explored transition is replayed on a real node comparing result class, stored set, best block and index. Forks.tla supplies the acceptance of valid blocks in every order. A configuration with a stepped vote lock table (LockAt: read at the height of the spending block) makes the choice of the table row observable.',
     design_ref="DESIGN.md §6 C13, core node model",
     note='Bounded as C10; wall-clock upper timestamp bound not exercised; per-transaction rules are decided by C01/C02/C07/C08.',
     technique="TLA+ spec + TLC exhaustive model check; TLC transitions replayed into the real Chain (ledger projection compared)",
